@@ -238,3 +238,142 @@ REWRITES = {
     'R5': r5_dynbox,
     'R12': r12_strip_comments,
 }
+
+
+def _closure_at(text, open_paren):
+    """text[open_paren] == '(' of a call whose only argument is a closure `|PAT| BODY`;
+    returns (pattern_text, body_text, close_paren_exclusive) or None"""
+    toks = lex(text)
+    offs = {t[2]: i for i, t in enumerate(toks)}
+    if open_paren not in offs:
+        return None
+    k = offs[open_paren]
+    c = match_close(toks, k)
+    inner = text[toks[k][3]:toks[c][2]]
+    m = re.match(r'\s*\|', inner)
+    if not m:
+        return None
+    # closure parameter list ends at the next `|` at delimiter depth 0
+    depth = 0
+    end_pat = None
+    for t in lex(inner[m.end():]):
+        if t[0] == 'punct' and t[1] in '([{':
+            depth += 1
+        elif t[0] == 'punct' and t[1] in ')]}':
+            depth -= 1
+        elif t[0] == 'punct' and t[1] == '|' and depth == 0:
+            end_pat = m.end() + t[2]
+            break
+    if end_pat is None:
+        return None
+    pat = inner[m.end():end_pat].strip()
+    body = inner[end_pat + 1:].strip()
+    return pat, body, toks[c][3]
+
+
+def r6_option_combinators(text):
+    """R6: Option combinators with a one-expression closure:
+       X.map(|p| E).unwrap_or(D)  ->  match X { Some(p) => E, None => D }
+       X.and_then(|p| E)          ->  match X { Some(p) => E, None => None }"""
+    n = 0
+    while True:
+        m = re.search(r'\.\s*map\s*\(', text)
+        done = True
+        for m in re.finditer(r'\.\s*map\s*\(', text):
+            cl = _closure_at(text, m.end() - 1)
+            if not cl:
+                continue
+            pat, body, end = cl
+            m2 = re.match(r'\s*\.\s*unwrap_or\s*\(', text[end:])
+            if not m2:
+                continue
+            toks = lex(text)
+            k = next(i for i, t in enumerate(toks) if t[2] == end + m2.end() - 1)
+            c = match_close(toks, k)
+            default = text[toks[k][3]:toks[c][2]].strip()
+            rs = _receiver_start(text, m.start())
+            recv = text[rs:m.start()].strip()
+            new = 'match %s { Some(%s) => %s, None => %s }' % (recv, pat, body, default)
+            text = text[:rs] + new + text[toks[c][3]:]
+            n += 1
+            done = False
+            break
+        if done:
+            break
+    while True:
+        done = True
+        for m in re.finditer(r'\.\s*and_then\s*\(', text):
+            cl = _closure_at(text, m.end() - 1)
+            if not cl:
+                continue
+            pat, body, end = cl
+            rs = _receiver_start(text, m.start())
+            recv = text[rs:m.start()].strip()
+            new = 'match %s { Some(%s) => %s, None => None }' % (recv, pat, body)
+            text = text[:rs] + new + text[end:]
+            n += 1
+            done = False
+            break
+        if done:
+            break
+    return text, n
+
+
+REWRITES['R6'] = r6_option_combinators
+
+
+def r10_continue_to_else(text):
+    """R10: inside a loop body,  `if C { A; continue; } REST`  ->  `if C { A; } else { REST }`
+    (only when `continue;` is the last statement of an if-block without else; the label of a
+    labelled continue is dropped when it names the innermost loop — not checked here, the
+    result must still type-check)."""
+    n = 0
+    while True:
+        toks = lex(text)
+        code = [i for i, t in enumerate(toks) if t[0] not in ('ws', 'lcomment', 'bcomment')]
+        hit = None
+        for ci, k in enumerate(code):
+            t = toks[k]
+            if t[0] == 'ident' and t[1] == 'continue':
+                # optional label, then `;`, then `}` closing the if-block
+                cj = ci + 1
+                if toks[code[cj]][0] == 'lifetime':
+                    cj += 1
+                if toks[code[cj]][1] != ';':
+                    continue
+                if toks[code[cj + 1]][1] != '}':
+                    continue
+                hit = (ci, cj)
+                break
+        if hit is None:
+            break
+        ci, cj = hit
+        close_if = code[cj + 1]
+        # enclosing block close: scan forward for the `}` at depth -1 relative to after close_if
+        depth = 0
+        close_outer = None
+        for j in range(close_if + 1, len(toks)):
+            u = toks[j]
+            if u[0] != 'punct':
+                continue
+            if u[1] in '([{':
+                depth += 1
+            elif u[1] in ')]}':
+                if depth == 0:
+                    close_outer = j
+                    break
+                depth -= 1
+        if close_outer is None:
+            break
+        # no `else` may follow the if-block
+        nxt = next((toks[c] for c in code if c > close_if), None)
+        if nxt is not None and nxt[1] == 'else':
+            break
+        new = (text[:toks[code[ci]][2]] + text[toks[code[cj]][3]:toks[close_if][3]] + ' else {' +
+               text[toks[close_if][3]:toks[close_outer][2]] + '}\n' + text[toks[close_outer][2]:])
+        text = new
+        n += 1
+    return text, n
+
+
+REWRITES['R10'] = r10_continue_to_else
